@@ -7,6 +7,8 @@ U2  each iteration of the interactive loops finishes and re-opens the message
     system (so one form's errors do not gate the next form's back end) and
     re-arms the recovery jump before evaluating.
 """
+import os
+import re
 from . import common, gates
 from .common import AnalysisBroken, strip, const_value, enum_name
 
@@ -18,7 +20,8 @@ EXPLANATION = (
     "path from the function entry to the first compFileFront also passes comsgInit() and the setjmp. "
     "U3: in compFileFront every CFG path from the passing edge of the compIsMoreAfterSyntax() test to the function's exit calls "
     "compPhaseScoBind (the binder's entry applies the pending roll-back of a rejected step; the flag scoUndoState has the single "
-    "setter scoSetUndoState). Not decided: equality of interactive and batch output; symbol-table state after the undo.")
+    "setter scoSetUndoState). U4: scanIsContinued's character switches inside and outside a string literal both have a case for the "
+    "scanner's ESC_CHAR that sets sawEscape, and a case for the double quote. Not decided: equality of interactive and batch output; symbol-table state after the undo.")
 
 ERR = [("call", "comsgErrorCount", False)]
 
@@ -123,6 +126,55 @@ def u3(rep, f):
         rep.violation("U3", "undo-flag-single-setter", "scobind.c", "scoUndoState is set by %s; expected scoSetUndoState only" % setters)
 
 
+def u4(rep):
+    """The continuation detector of the interactive loop tracks string literals the way the scanner does: inside and outside a
+    string the escape character makes the next character ordinary."""
+    f = common.extract("scan.c", trees=["scanIsContinued"])
+    fn = f.func("scanIsContinued")
+    esc = None
+    md = common.macro_defs(os.path.join(common.SRC, "scan.c")) if hasattr(common, "macro_defs") else {}
+    # the scanner's escape character: #define ESC_CHAR '_'
+    for line in open(os.path.join(common.SRC, "scan.c"), errors="replace"):
+        m = re.match(r"#\s*define\s+ESC_CHAR\s+'(.)'", line)
+        if m:
+            esc = ord(m.group(1))
+    if esc is None:
+        raise AnalysisBroken("scan.c: ESC_CHAR not found")
+    # the branch taken while inside a string literal, and the branch for ordinary text (its else)
+    branch = None
+    for x in common.walk(fn["body"]):
+        if x["k"] == "IfStmt" and strip(x["c"][0]) is not None and strip(x["c"][0]).get("n") == "inStringLiteral":
+            branch = x
+    if branch is None or branch["c"][2] is None:
+        raise AnalysisBroken("scanIsContinued: `else if (inStringLiteral) ... else ...` not found")
+
+    def chars_and_escape(node):
+        chars, sets = set(), False
+        for y in common.walk(node):
+            if y["k"] == "CaseStmt" and y.get("lo") is not None:
+                chars.add(y["lo"])
+            if y["k"] == "BinaryOperator" and y["op"] in ("==", "!="):
+                v = const_value(y["c"][1])
+                if v is not None and 0 < v < 256:
+                    chars.add(v)
+            if y["k"] == "BinaryOperator" and y["op"] == "=" and strip(y["c"][0]) is not None and \
+                    strip(y["c"][0]).get("n") == "sawEscape" and const_value(y["c"][1]) == 1:
+                sets = True
+        return chars, sets
+    for where_, node in (("in-string", branch["c"][1]), ("out-of-string", branch["c"][2])):
+        chars, sets = chars_and_escape(node)
+        key = "continuation:%s:escape" % where_
+        if ord('"') not in chars:
+            raise AnalysisBroken("scanIsContinued: the %s branch does not look at the double quote" % where_)
+        if esc in chars and sets:
+            rep.ok("U4", key)
+        else:
+            rep.violation("U4", key, "scan.c:%d (scanIsContinued)" % node["l"],
+                          "%s the detector does not treat ESC_CHAR ('%s') as escaping the next character: an escaped quote is taken for the "
+                          "end (or start) of a string literal, the string state stays wrong for the rest of the session and following "
+                          "lines are merged into one interactive step" % (where_, chr(esc)))
+
+
 def is_setjmp(n):
     if n["k"] != "CallExpr":
         return False
@@ -179,6 +231,7 @@ def run(tier, only=None):
     u1(rep, f)
     u2(rep, f)
     u3(rep, f)
+    u4(rep)
     rep.analysed_count("functions", 3)
     rep.assumptions.append("the CFG search is path-insensitive except for the fintMode == FINT_LOOP assumption in U1")
     return rep
